@@ -10,7 +10,8 @@ lockstep with the real database of the current workload.
   op addall <t> <heads> <cs> <changes>    heads = `a,b`; changes = `id/prevs/snap/order;…` (`-` = none,
   op deferred <t> <heads> <cs> <changes>       prevs separated by `.`)
   op acl-add <acl> <rec> <prev|-> <order>
-  op tree-delete <t>                      → `<trace> | single=<0|1>`   (the calls `traceOf` generates)
+  op tree-delete <t>                      → `<trace> | single=<0|1> batch=<0|1|->`  (the calls `traceOf` generates;
+                                             batch: the AddAll input satisfies `BatchOk` w.r.t. the model's store)
   crash <k>                               → `<pre|post|same|other> <digest>` (state found after a crash just
                                              before call k of the last op; k = length: after it;
                                              `same`: the op leaves the modelled state unchanged)
@@ -119,7 +120,13 @@ def step (st : St) (line : String) : St × String :=
     | some op =>
       let tr := traceOf op
       let acl := match op with | .spaceCreate _ a _ => a | _ => st.acl
-      ({ st with last := some op, acl := acl }, s!"{showTrace tr} | single={showBool (singleTxB tr)}")
+      let batch := match op with
+        | .addAll t chs hs cs => showBool (batchOkB st.store t chs hs cs)
+        | .deferredAddAll t chs hs cs =>
+          showBool (batchOkB (exec (Db.idle st.store) (traceOf (.treeCreate t))).committed t chs hs cs)
+        | _ => "-"
+      ({ st with last := some op, acl := acl },
+        s!"{showTrace tr} | single={showBool (singleTxB tr)} batch={batch}")
     | none => (st, "bad-op")
   | ["crash", k] =>
     match k.toNat?, st.last with
